@@ -218,7 +218,16 @@ Ltac eqs :=
          | H : exists _, _ |- _ => destruct H
          end.
 
-Ltac fin := intros; eqs; repeat split; intros; unfold x_live, pend in *; cbn [xDeliv xS xCnt xA xR orb andb negb] in *; rewrite ?Bool.orb_true_r in *; eqs; eauto; try lia; try (apply Nat.ltb_lt; lia); try discriminate.
+Ltac pendh :=
+  repeat match goal with
+         | H : pend _ = false |- _ =>
+           unfold pend in H; cbn [xS xCnt xA xR orb] in H; rewrite ?Bool.orb_true_r in H; cbn [orb] in H
+         end.
+Ltac fin :=
+  intros; eqs; repeat split; intros; eqs;
+  first [ solve [auto] | lia | discriminate
+        | (unfold x_live; cbn [xDeliv]; apply Nat.ltb_lt; lia)
+        | (pendh; eqs; first [lia | solve [eauto]]) | solve [eauto] | idtac ].
 
 Lemma quiescent_props : forall a, x_quiescent n W a = true ->
   (match xS a with CSGate _ => False | CSIn _ SPassed => False | CSIn _ SIdle => False
